@@ -1,0 +1,24 @@
+//go:build verif
+
+package nodis
+
+import "github.com/diiyw/nodis/internal/geohash"
+
+// Hooks for the verification harness: the geohash functions of internal/geohash, which a foreign
+// module cannot import. Build tag verif only; nothing here is called by nodis itself.
+
+func VerifGeoEncode(longitude, latitude float64) (uint64, error) {
+	return geohash.EncodeWGS84(longitude, latitude)
+}
+
+func VerifGeoDecode(bits uint64) (float64, float64) { return geohash.DecodeToLongLatWGS84(bits) }
+
+func VerifGeoBase32(bits uint64) []byte { return geohash.EncodeToBase32(bits) }
+
+func VerifGeoInterleave(x, y uint32) uint64 { return geohash.VerifInterleave64(x, y) }
+
+func VerifGeoDeinterleave(v uint64) (uint32, uint32) { return geohash.VerifDeinterleave64(v) }
+
+func VerifGeoConsts() []float64 {
+	return []float64{geohash.WGS84_LONG_MAX, geohash.WGS84_LONG_MIN, geohash.WGS84_LAT_MAX, geohash.WGS84_LAT_MIN}
+}
